@@ -64,7 +64,7 @@ Fixpoint dec_node (fuel : nat) (v : value) : option fnode :=
 Definition dec_tree (v : value) : option (option fnode) :=
   match v with
   | VL [] => Some None
-  | _ => match dec_node 8 v with Some n => Some (Some n) | None => None end
+  | _ => match dec_node 64 v with Some n => Some (Some n) | None => None end
   end.
 
 Definition request_passes (rq : request) : bool := hm_contains (B "X-Pass") (q_headers rq).
